@@ -190,6 +190,8 @@ def _catalogue(tier, seed):
                     ops.append(("scal", "%s|%s|%s|%s" % (tag, dom_l, f_l, dt), scal(dom, f, dt)))
             ops.append(("scal", "%s|%s|scaled" % (tag, dom_l), dict(k="scaled", f=2.5, op=scal(dom, 1.7, "f8"))))
         ops.append(("scal", "%s|multi|pos|dict" % tag, scal(MD, 1.7, {"a": "f8", "b": "c16"})))
+        ops.append(("scal", "%s|multi|pos|dict-dtype-instances" % tag, scal(MD, 1.7, {"a": "f8i", "b": "c16i"})))
+        ops.append(("scal", "%s|single|pos|dtype-instance" % tag, scal(D, 1.7, "f8i")))
         ops.append(("scal", "%s|multi|pos|dict-none" % tag, scal(MD, 1.7, {"a": "f8", "b": None})))
 
         # ---- 2. diagonal operators
@@ -399,7 +401,9 @@ def _npdt(dt):
     if isinstance(dt, dict):
         return {k: _npdt(v) for k, v in dt.items()}
     return {"f8": np.float64, "c16": np.complex128, "f4": np.float32, "c8": np.complex64,
-            "pyfloat": float, "pycomplex": complex, None: None}[dt]
+            "pyfloat": float, "pycomplex": complex, None: None,
+            # np.dtype INSTANCES (what Field.dtype / optimize_kl hand over); note np.dtype("f8") == None is True
+            "f8i": np.dtype("float64"), "c16i": np.dtype("complex128")}[dt]
 
 
 def mkdom(D):
